@@ -2,6 +2,7 @@
 
 from __future__ import annotations
 
+import re
 from typing import TYPE_CHECKING
 from typing import Iterable
 from typing import TextIO
@@ -15,11 +16,15 @@ from liquid2.builtin import parse_primitive
 from liquid2.builtin import parse_string_or_identifier
 from liquid2.exceptions import LiquidSyntaxError
 from liquid2.stringify import to_liquid_string
+from liquid2.unescape import quote_string
 
 if TYPE_CHECKING:
     from liquid2 import RenderContext
     from liquid2 import TokenT
     from liquid2.expression import Expression
+
+
+RE_WORD = re.compile(r"[\u0080-\uFFFFa-zA-Z_][\u0080-\uFFFFa-zA-Z0-9_-]*")
 
 
 class CycleNode(Node):
@@ -38,7 +43,14 @@ class CycleNode(Node):
 
     def __str__(self) -> str:
         assert isinstance(self.token, TagToken)
-        name = f"{self.name}: " if self.name else ""
+        name = ""
+        if self.name:
+            # The group name is a string. Quote it unless it is a plain word.
+            name = (
+                f"{self.name}: "
+                if RE_WORD.fullmatch(self.name)
+                else f"{quote_string(self.name)}: "
+            )
         items = ", ".join(str(i) for i in self.items)
         return f"{{%{self.token.wc[0]} cycle {name}{items} {self.token.wc[1]}%}}"
 
